@@ -514,5 +514,6 @@ func main() {
 			{Name: "aescmac", Body: cmacSection, Bound: -1},
 			{Name: "invalid-params", Body: invalidSection, Bound: -1},
 			{Name: "legacy-adapter", Body: legacySection, Bound: -1},
+			{Name: "mac-keyset-prefix-collision", Body: collisionSection, Bound: -1},
 		})
 }
